@@ -484,6 +484,18 @@ func genConc(prop string, seed uint64, run int, p concProfile, av avoid) *Case {
 				}
 			}
 		}
+		// transactions that store into the unmodelled column only: they change their block (and
+		// must emit one commit) if the column still exists when the commit looks it up, and
+		// change nothing (and must emit nothing) if it was dropped before
+		for ti := range cs.Threads {
+			if cs.Threads[ti].Role == "writer" && gr.Chance(0.6) {
+				at := gr.Intn(len(cs.Threads[ti].Txns) + 1)
+				g1 := TxnProg{Ops: []Op{{Kind: "ghostonly", Target: Target{Mode: "stable", K: gr.Intn(64)}}}}
+				txns := append([]TxnProg{}, cs.Threads[ti].Txns[:at]...)
+				txns = append(txns, g1)
+				cs.Threads[ti].Txns = append(txns, cs.Threads[ti].Txns[at:]...)
+			}
+		}
 		t := TxnProg{Ops: []Op{{Kind: "dropghost"}}}
 		if gr.Chance(0.4) {
 			t.Ops = append(t.Ops, Op{Kind: "mkghost"}, Op{Kind: "dropghost"})
